@@ -71,6 +71,7 @@ type Frame struct {
 	lockHeld  map[string]bool
 	depth     int
 	callspecs map[string]*Contract
+	loopPolicy map[*ssa.BasicBlock]map[string]*loopKeyPolicy
 	parent    *Frame
 }
 
@@ -407,6 +408,26 @@ func (w *World) execInstr(fr *Frame, st *State, ins ssa.Instruction) {
 		if v.T.S == "" {
 			unsupported("store of an address-only value (%s) in %s", ins.Val.Name(), fr.fn.Name())
 		}
+		if ia, ok := ins.Addr.(*ssa.IndexAddr); ok {
+			if _, isSlice := ia.X.Type().Underlying().(*types.Slice); isSlice {
+				w.atAsserts(fr, st, "elemstore", ins, map[string]*Val{"value": v, "index": w.val(fr, st, ia.Index), "slice": w.val(fr, st, ia.X)})
+			}
+		}
+		if l := w.locOf(addr, ins.Addr.Type()); l != nil {
+			switch l.kind {
+			case "field":
+				w.loopWriteCheck(fr, st, w.fieldKey(l.styp, l.field), l.base)
+			case "elem":
+				w.loopWriteCheck(fr, st, w.elemsKey(w.sortOf(l.rootT)), l.base)
+			case "heapcell":
+				w.loopWriteCheck(fr, st, w.cellKey(w.sortOf(l.rootT)), l.base)
+			}
+		} else if et := deref(ins.Addr.Type()); isStruct(et) {
+			stt := et.Underlying().(*types.Struct)
+			for i := 0; i < stt.NumFields(); i++ {
+				w.loopWriteCheck(fr, st, w.fieldKey(et, i), addr.T)
+			}
+		}
 		w.storePtr(st, addr, ins.Addr.Type(), v)
 		// keep static knowledge about function values held in locals
 		if addr.Loc != nil && addr.Loc.kind == "cell" && len(addr.Loc.path) == 0 && (v.Fn != nil || v.Dyn != nil) {
@@ -452,7 +473,14 @@ func (w *World) execInstr(fr *Frame, st *State, ins ssa.Instruction) {
 	case *ssa.MapUpdate:
 		m := w.term(fr, st, ins.Map)
 		mt := ins.Map.Type().Underlying().(*types.Map)
+		w.guardCheck(fr, st, ins.Map.Type(), m, true)
 		w.atAsserts(fr, st, "mapupdate", ins, map[string]*Val{"key": w.val(fr, st, ins.Key), "value": w.val(fr, st, ins.Value), "map": w.val(fr, st, ins.Map)})
+		{
+			dk, vk := w.mapKeys(w.sortOf(mt.Key()), w.sortOf(mt.Elem()))
+			w.loopWriteCheck(fr, st, dk, m)
+			w.loopWriteCheck(fr, st, vk, m)
+			w.loopWriteCheck(fr, st, "MapLen", m)
+		}
 		w.mapStore(st, mt, m, w.term(fr, st, ins.Key), w.term(fr, st, ins.Value))
 	case *ssa.MakeMap:
 		mt := ins.Type().Underlying().(*types.Map)
@@ -716,6 +744,19 @@ func (v *Val) isNilConst() bool {
 func (w *World) execIndexAddr(fr *Frame, st *State, ins *ssa.IndexAddr) {
 	x := w.val(fr, st, ins.X)
 	i := w.term(fr, st, ins.Index)
+	if fr.top && w.muted == 0 {
+		if _, isConst := ins.Index.(*ssa.Const); !isConst {
+			seen := false
+			for _, t := range w.indexTerms {
+				if t.S == i.S {
+					seen = true
+				}
+			}
+			if !seen {
+				w.indexTerms = append(w.indexTerms, i)
+			}
+		}
+	}
 	switch t := ins.X.Type().Underlying().(type) {
 	case *types.Slice:
 		fr.vals[ins] = &Val{Typ: ins.Type(), Loc: &Loc{kind: "elem", base: sarr(x.T), idx: add(soff(x.T), i), rootT: t.Elem()}}
@@ -770,6 +811,11 @@ func (w *World) atAsserts(fr *Frame, st *State, kind string, ins ssa.Instruction
 			case *ssa.Lookup:
 				_, isMap := x.(*ssa.Lookup).X.Type().Underlying().(*types.Map)
 				same = kind == "lookup" && isMap
+			case *ssa.Store:
+				if ia, ok := x.(*ssa.Store).Addr.(*ssa.IndexAddr); ok {
+					_, isSlice := ia.X.Type().Underlying().(*types.Slice)
+					same = kind == "elemstore" && isSlice
+				}
 			}
 			if same {
 				ord++
@@ -790,6 +836,7 @@ func (w *World) atAsserts(fr *Frame, st *State, kind string, ins ssa.Instruction
 	}
 	for _, as := range fr.contract.Asserts {
 		if as.Kind == kind && as.Ord == ord {
+			w.firedAsserts[as] = true
 			env := w.contractEnv(fr, st, fr.entry)
 			for k, v := range vars {
 				env.vars[k] = v
@@ -804,10 +851,46 @@ func (w *World) atAsserts(fr *Frame, st *State, kind string, ins ssa.Instruction
 	}
 }
 
+// guardCheck emits the lock-discipline obligations of guarded package-level
+// maps for a lookup (write=false) or update (write=true) of map value m, in
+// any frame (inlined helpers included).
+func (w *World) guardCheck(fr *Frame, st *State, mapT types.Type, m Term, write bool) {
+	if w.muted > 0 {
+		return
+	}
+	for _, g := range w.specs.Guards {
+		pk := w.l.All[g.Pkg]
+		if pk == nil || pk.Types == nil {
+			continue
+		}
+		sp := w.l.Prog.Package(pk.Types)
+		if sp == nil {
+			continue
+		}
+		gv, ok := sp.Members[g.Global].(*ssa.Global)
+		if !ok || !types.Identical(deref(gv.Type()), mapT) {
+			continue
+		}
+		key := w.globalKey(gv)
+		env := &CEnv{w: w, pkg: pk.Types, vars: map[string]*Val{}, cur: st, old: st}
+		cond := g.Read
+		what := "read"
+		if write {
+			cond, what = g.Write, "write"
+		}
+		w.callOrd["guard:"+g.Global+what]++
+		props := g.Props
+		o := w.oblige("guard", fmt.Sprintf("guard.%s.%s.%d", g.Global, what, w.callOrd["guard:"+g.Global+what]), st.cond,
+			implies(eq(m, w.hget(st, key)), w.evalBool(env, cond)), true, props)
+		o.Pos = g.File
+	}
+}
+
 func (w *World) execLookup(fr *Frame, st *State, ins *ssa.Lookup) {
 	x := w.term(fr, st, ins.X)
 	k := w.term(fr, st, ins.Index)
 	if _, isMap := ins.X.Type().Underlying().(*types.Map); isMap {
+		w.guardCheck(fr, st, ins.X.Type(), x, false)
 		w.atAsserts(fr, st, "lookup", ins, map[string]*Val{"key": w.val(fr, st, ins.Index), "map": w.val(fr, st, ins.X)})
 	}
 	mt, isMap := ins.X.Type().Underlying().(*types.Map)
